@@ -6,7 +6,7 @@
 //! trusted: R15 (deep slice): ChannelManager::handle_channel_resumption: the two function-local macros handle_cs! / handle_raa! and the match on commitment_order that invokes them, verbatim (the macro definitions are part of the slice); MessageSendEvent is a two-variant skeleton; channel_ready / tx_signatures / announcement_sigs / forwards handling around it is dropped and not claimed
 //! trusted: R15 (deep slice): ChannelManager::handle_channel_resumption: the statements that decide whether the released update_add_htlcs are returned for decoding, verbatim as a function (UpdateAddHTLC skeleton; the channel stub answers is_connected())
 //! trusted: R15 (deep slice): commitment_signed_update_monitor from `self.context.expecting_peer_commitment_signed = false` to the end of the function, verbatim as a function of the update just built and need_commitment; build_commitment_no_status_check (one more update, next id, nothing held changes), push_ret_blockable_mon_update (returns the update or holds it) are external_body; monitor_updating_paused carries the contract proved for it in this unit; `a.append(&mut b)` is vec_append (R8)
-//! trusted: R20 (ownership of a lock guard, a syntactic check surfaced as an obligation): ChainMonitor::flush: the pattern the guard of flush_lock is bound to is captured; the obligation holds iff it is a name (a guard bound to `_` is dropped at once). This says nothing else about concurrency
+//! trusted: R20 (ownership of a lock guard, a syntactic check surfaced as an obligation): ChainMonitor::flush: the pattern the guard of flush_lock is bound to is captured; the obligation holds iff it is a name (a guard bound to `_` is dropped at once). ChainMonitor::channel_monitor_updated: the guard of the pending-update set is bound to a name and no top-level `drop(..)` of it occurs between the emptiness test and the push of the Completed event (token scan by macro). This says nothing else about concurrency
 //! trusted: R15 (deep slices): ChainMonitor::flush: the arm that applies a queued update and the match that reports the outcome, verbatim (R5: the monitor set is a stub whose update_channel_internal / channel_monitor_updated record their arguments; `&self` written `&mut self`; logger constructions dropped); the NewMonitor arm and the queue handling are not sliced
 //! trusted: ChannelManager::handle_monitor_update_res is extracted whole (the logger type parameter instantiated, the startup flag an AtomicFlag stub); handle_new_monitor_update_locked_actions_handled_by_caller: the statements after the Watch call (removal of a completed update from the in-flight list, the defensive panic, the result pair) are sliced as a function of the in-flight list; handle_new_monitor_update_with_status / handle_post_close_monitor_update: the conditions under which the channel is resumed / the blocked actions released (slices)
 //! trusted: R10: `panic!(..)` statements the source reaches on purpose (unrecoverable persistence failure; a Watch that reports Completed while earlier updates are in progress) are calls of a stub that never returns
@@ -17,6 +17,13 @@
 use vstd::prelude::*;
 // R20: how a lock guard is bound: a guard bound to the wildcard pattern `_` is dropped at once, a named binding (also `_name`) lives to the end of its block
 macro_rules! guard_lives_to_end_of_block { (_) => { false }; ($i:ident) => { true }; }
+// R20: does a run of statements release the named guard by an explicit drop (top-level `drop(g)`, `mem::drop(g)` or `core::mem::drop(g)`)?
+macro_rules! releases_guard {
+    ($g:ident;) => { false };
+    ($g:ident; drop ( $h:ident ) $($rest:tt)*) => { guard_name_eq!($g, $h) || releases_guard!($g; $($rest)*) };
+    ($g:ident; $first:tt $($rest:tt)*) => { releases_guard!($g; $($rest)*) };
+}
+macro_rules! guard_name_eq { (pending_monitor_updates, pending_monitor_updates) => { true }; ($a:ident, $b:ident) => { false }; }
 verus! {
 use core::mem;
 pub struct Held { pub id: u64 }
@@ -516,6 +523,19 @@ impl Monitors {
         ensures final(self).did@ == old(self).did@.push(Did::Applied { channel_id, update_id: update.update_id }), r == persister_answer(channel_id, update.update_id), !(r is UnrecoverableError) { unimplemented!() }
     #[verifier::external_body] pub fn channel_monitor_updated(&mut self, channel_id: ChannelId, completed_update_id: u64) -> (r: Result<(), ()>)
         ensures final(self).did@ == old(self).did@.push(Did::ReportedCompleted { channel_id, update_id: completed_update_id }), r is Ok { unimplemented!() }
+//@extract lightning/src/chain/chainmonitor.rs :: impl ChainMonitor :: fn channel_monitor_updated
+//@slice R15
+    let mut $g:ident = monitor_data.pending_monitor_updates.lock().unwrap(); $g2:ident.retain($r:any); $between:any self.pending_monitor_events.lock().unwrap().push(
+//@with
+    fn pending_set_stays_locked_until_the_completed_event_is_built() -> bool { guard_lives_to_end_of_block!($g) && !releases_guard!(pending_monitor_updates; $between) }
+//@ret r
+//@ensures P C09 the-lock-on-the-pending-update-set-taken-for-the-emptiness-test-is-still-held-when-the-completed-event-reads-the-monitors-latest-update-id
+    r,
+//@mutant pending_set_unlocked_before_the_event_is_built
+    let monitor_is_pending_updates = monitor_data.has_pending_updates(&pending_monitor_updates);
+//@with
+    let monitor_is_pending_updates = monitor_data.has_pending_updates(&pending_monitor_updates); core::mem::drop(pending_monitor_updates);
+//@end
 //@extract lightning/src/chain/chainmonitor.rs :: impl ChainMonitor :: fn flush
 //@slice R15
     let $g:tt = self.flush_lock.lock().unwrap(); if count == 0 {
